@@ -227,7 +227,7 @@ def gen_cases(tier, seed, after_stop_limit):
     else:
         cases += crash_point_cases("p", 8, THREADS, rng, every_cfg=True)
         cases += thread_signal_cases("t", 8, rng, full=True)
-        cases += lifecycle_cases("l", 2500, rng)
+        cases += lifecycle_cases("l", 4000, rng)
     return cases
 
 
@@ -354,7 +354,7 @@ def run(prop, tier):
                     lines = [re.sub(r"limit=\d+", "limit=%d" % after_stop_limit, l) if ",X,sig:" in l else l for l in lines]
                 process(run_cases(hbin, lines, pargs, scratch, "corpus/" + f))
                 ncorpus += 1
-        seeds = [ck.seed] if tier == "quick" else [ck.seed, ck.seed + 1000]
+        seeds = [ck.seed] if tier == "quick" else [ck.seed, ck.seed + 1000, ck.seed + 2000]
         for i, sd in enumerate(seeds):
             t = tier if i == 0 else "quick"
             process(run_cases(hbin, gen_cases(t, sd, after_stop_limit), pargs, scratch, "gen %s seed=%d" % (t, sd)))
